@@ -115,6 +115,7 @@ package agessh
 //@   ensures#ok err == nil ==> r != nil                                                                            [C14 C18]
 //@   ensures#nil err != nil ==> r == nil                                                                           [C14 C18]
 //@   modifies nothing
+//@   frame assumed ssh.ParseAuthorizedKey and the edwards25519 conversions are library code without frame contracts
 
 //@ func (*RSAIdentity).Unwrap(i, stanzas) (fk, err)
 //@   requires i.sshKey != nil && (forall j in 0..len(stanzas) :: stanzas[j] != nil)
